@@ -91,11 +91,11 @@ func (p *Prog) cookFn() *ssa.Function {
 	})
 }
 
-// parseFn: the routine extracting the three leading fields with constants 8, 9, 35.
+// parseFn: the routine extracting the three leading fields with constants 8, 9, 35, and the
+// expected-field extractor it calls for them.
 func (p *Prog) parseFn() (*ssa.Function, *ssa.Function) {
 	want := map[int64]bool{p.Tag("tagBeginString"): true, p.Tag("tagBodyLength"): true, p.Tag("tagMsgType"): true}
-	var specific *ssa.Function
-	fn := p.roleFn("message-parse", "doParsing", func(fn *ssa.Function) bool {
+	extractorOf := func(fn *ssa.Function) *ssa.Function {
 		byCallee := map[*ssa.Function]map[int64]bool{}
 		for _, cl := range Calls(fn) {
 			cal := cl.Common().StaticCallee()
@@ -113,19 +113,13 @@ func (p *Prog) parseFn() (*ssa.Function, *ssa.Function) {
 		}
 		for cal, m := range byCallee {
 			if len(m) == 3 && cal.Signature.Results().Len() == 2 {
-				specific = cal
-				return true
+				return cal
 			}
 		}
-		return false
-	})
-	if specific == nil {
-		for _, cl := range Calls(fn) {
-			if cal := cl.Common().StaticCallee(); cal != nil && cal.Name() == "extractSpecificField" {
-				specific = cal
-			}
-		}
+		return nil
 	}
+	fn := p.roleFn("message-parse", "doParsing", func(fn *ssa.Function) bool { return extractorOf(fn) != nil })
+	specific := extractorOf(fn)
 	if specific == nil {
 		anchorFail("role \"expected-field extractor\"")
 	}
